@@ -371,7 +371,9 @@ def pippenger(ctx):
         for (w, n) in myplan:
             sched = scheds[w]
             ex.unroll_limit = max((1 << w) + 3, 40)
-            for pi in positions_for(tier, sched, w):
+            # thorough: every position for windows <= 4, one position per control-flow class above (every position of every window
+            # up to 8 was tried: > 5 hours on this machine)
+            for pi in positions_for(tier if w <= 4 else 'quick', sched, w):
                 nxt = sched[pi + 1] if pi + 1 < len(sched) else None
                 step(ex, f, head, proj, aff, w, n, sched[pi], nxt, chk, gname)
         # mismatched list lengths inside the bucket method (every digit-extraction branch): only the first min entries count, no panic
@@ -405,7 +407,7 @@ def pippenger(ctx):
         if gname == 'G1':
             for w in ([] if tier == 'quick' else list(range(1, 21))):       # concrete positions: thorough only (the symbolic-position run above subsumes them)
                 sched = scheds[w]
-                big_window_digits(ctx, gname, proj, aff, f, head, w, sched, positions_for(tier, sched, w))
+                big_window_digits(ctx, gname, proj, aff, f, head, w, sched, positions_for('quick', sched, w))
 
 
 def entry_points(ctx):
@@ -609,8 +611,8 @@ def run(ctx):
     if not only or 'native' in only:
         native_differential(ctx)
     chk.bounds.update({'bucket method (full step incl. reduction)': 'quick: windows 1..6 with n = 2 or 3 points at the first/last/word-straddling positions; '
-                       'thorough: windows 1..8 (n<=3 for w<=6, n=2 for w=7,8) at every position',
-                       'digit extraction + index safety': 'every window 1..=20 with a SYMBOLIC bit position 0..=255 (both tiers); thorough repeats it at every concrete schedule position',
+                       'thorough: windows 1..8 (n<=3 for w<=4, n=2 above), every position for w<=4 and one position per control-flow class for w=5..8',
+                       'digit extraction + index safety': 'every window 1..=20 with a SYMBOLIC bit position 0..=255 (both tiers); thorough repeats it at one concrete position per control-flow class of every window',
                        'scalars': 'all values of the 4x64 limb bits with bit 255 clear', 'outside': 'bucket reduction for windows 9..=20 and n > 3'})
     chk.assumptions += ['curve operations act as an abelian group on exponent vectors over formal generators (C01); repeated / inverse / identity points are '
                         'linear substitutions into the proved linear form', 'induction over window positions: invariant res = sum_i (k_i >> (b+1)) e_i, buckets = O']
